@@ -93,6 +93,11 @@ def run(tier):
     from .. import memo
     memo.check_modules(chk, "C01.c-memo", ["hiten.algorithms.dynamics.base", "hiten.algorithms.dynamics.rtbp"], floor=2,
                        what="hand-rolled caches of compiled right-hand sides")
+    # the propagation wrapper of the variational system keeps state block and matrix block one coherent 42-vector in every
+    # direction (initial vector, slicing, total sign flip, forwarding): the C03 interpretation of _compute_stm, re-filed
+    from . import c03
+    from .common import Relabel
+    c03._stm_layout(Relabel(chk, {"C03.a-layout": "C01.b-stm", "C03.c": "C01.b-stm", "C03": "C01.b-stm"}))
     chk.floor("C01 obligations", chk.obligations, 36 + 42 + 6 + 5)
     return chk
 
@@ -130,28 +135,53 @@ def _wiring(chk, field, st, mu, R, Phi, var_out, F):
 
 
 def _system_wiring(chk):
-    """services/system.py: the three dynsys factories receive the system's mu; mu = m2/(m1+m2)."""
+    """services/system.py: the compiled systems a System hands out are built for its own mu; mu = m2/(m1+m2).
+
+    Decided on model objects: two systems whose bodies carry the same names and different masses ask, one after the other
+    in one interpreter (module-level state persists), for their field, variational and Jacobian systems; the three rtbp
+    factories are stubbed to return a tag carrying the mu they were given, and what each system receives must carry its own
+    m2/(m1+m2).  Covers factories reached through helpers and builder references, and process-wide caches keyed without mu."""
     modname = "hiten.algorithms.types.services.system"
     mod = ri.need_module(modname)
-    wanted = {"rtbp_dynsys": 0, "jacobian_dynsys": 0, "variational_dynsys": 0}
-    for q, fn in ri.functions_in(mod):
-        for n in ast.walk(fn):
-            if isinstance(n, ast.Call):
-                name = n.func.id if isinstance(n.func, ast.Name) else (n.func.attr if isinstance(n.func, ast.Attribute) else None)
-                if name in wanted:
-                    r = ri.resolve(mod, name)
-                    if not (r and r[0] == "def" and r[1].name == RTBP):
-                        continue
-                    wanted[name] += 1
-                    args = list(n.args) + [k.value for k in n.keywords if k.arg in (None, "mu")]
-                    first = n.args[0] if n.args else next((k.value for k in n.keywords if k.arg == "mu"), None)
-                    ok = first is not None and _is_self_mu(first, fn, mod, q)
-                    chk.check(ok, "C01.c", f"{modname}::{q}[{name}(...)]",
-                              f"{name} is not called with the system's mass parameter: {ri.norm_stmt(n)}",
-                              sample=ri.norm_stmt(n))
-    for name, cnt in wanted.items():
+    mod_, cls = ri.find_def(modname, "_SystemsDynamicsService")
+    seen = {"rtbp_dynsys": 0, "jacobian_dynsys": 0, "variational_dynsys": 0}
+    for n in ast.walk(cls):
+        if isinstance(n, ast.Name) and n.id in seen:
+            seen[n.id] += 1
+    for name, cnt in seen.items():
         if cnt == 0:
-            raise AnalysisError(f"anchor: no call of {name} found in {modname}")
+            raise AnalysisError(f"anchor: no use of {name} found in {modname}::_SystemsDynamicsService")
+
+    def stub(kind):
+        def f(ip_, a, k):
+            return ("dynsys", kind, k.get("mu", a[0] if a else None))
+        return f
+
+    ov = {(RTBP, n): stub(n) for n in seen}
+    ov["make_key"] = lambda ip_, a, k: tuple(_hashable(x) for x in a)
+    ip = Interp(overrides=ov)
+    bc_mod, bc_cls = ri.find_def("hiten.algorithms.types.services.base", "_CacheServiceBase")
+    props = (("dynsys", "rtbp_dynsys"), ("var_dynsys", "variational_dynsys"), ("jacobian_dynsys", "jacobian_dynsys"))
+    for tag in ("A", "B"):
+        m1, m2 = sp.symbols(f"m1{tag} m2{tag}", positive=True)
+        prim = SymObj(None, {"name": "Primary", "_name": "Primary", "_mass": m1, "mass": m1}, f"primary{tag}")
+        sec = SymObj(None, {"name": "Secondary", "_name": "Secondary", "_mass": m2, "mass": m2}, f"secondary{tag}")
+        dom = SymObj(None, {"_primary": prim, "_secondary": sec, "_distance": sp.Symbol(f"dist{tag}", positive=True), "_libration_points": {}}, f"system{tag}")
+        cache = SymObj(ClassRef(bc_mod, bc_cls), {"_cache": {}}, f"cache{tag}")
+        svc = SymObj(ClassRef(mod_, cls), {"_domain_obj": dom, "domain_obj": dom, "_cache": cache, "_primary": prim, "_secondary": sec,
+                                           "_distance": dom.attrs["_distance"]}, f"service{tag}")
+        for prop, kind in props:
+            for rep in (1, 2):
+                try:
+                    got = ip.getattr(svc, prop)
+                except OutsideFragment as exc:
+                    raise AnalysisError(f"_SystemsDynamicsService.{prop} outside fragment: {exc}")
+                ok = isinstance(got, tuple) and len(got) == 3 and got[0] == "dynsys" and got[1] == kind and got[2] is not None \
+                    and is_zero(S(got[2]) - m2 / (m1 + m2))[0]
+                chk.check(ok, "C01.c", f"{modname}::_SystemsDynamicsService.{prop}[system {tag}, access {rep}]",
+                          f"system {tag} (masses {m1},{m2}) is handed {got!r} instead of {kind}(mu = {m2}/({m1}+{m2})): the compiled system "
+                          f"belongs to another mass parameter", sample=f"system {tag}.{prop} -> {kind}(mu = m2/(m1+m2))", nontrivial=(tag == "B"))
+    chk.count("functions partially evaluated", 3)
     # mu = m2/(m1+m2)
     ip = Interp()
     m1, m2 = sp.symbols("m1 m2", positive=True)
@@ -179,6 +209,14 @@ def _system_wiring(chk):
                       sample=f"mu = {short(val)}")
     if not found:
         raise AnalysisError("anchor _get_mass_parameter not found")
+
+
+def _hashable(x):
+    try:
+        hash(x)
+        return x
+    except TypeError:
+        return id(x)
 
 
 def _eval_mass_parameter(ip, mod, q, fn, m1, m2):
